@@ -62,7 +62,20 @@ func (l *Logger) With(args ...any) *Logger {
 	if len(args) == 0 {
 		return l
 	}
-	return &Logger{l.h.WithAttrs(argsToAttrs(args))}
+	// like slog.Record does for the arguments of a log call: an empty group is dropped
+	attrs := argsToAttrs(args)
+	n := 0
+	for _, a := range attrs {
+		if a.Value.Kind() == slog.KindGroup && len(a.Value.Group()) == 0 {
+			continue
+		}
+		attrs[n] = a
+		n++
+	}
+	if n == 0 {
+		return l
+	}
+	return &Logger{l.h.WithAttrs(attrs[:n])}
 }
 
 // WithGroup returns a Logger that starts a group with the given name.
